@@ -714,6 +714,7 @@ func C06(run *report.Run) {
 		}
 	}
 	acc.flush(run)
+	swallowedFaultPass(run, "C06", "DiffIter", "DiffCursor")
 	run.Transitions += acc.pairs
 	run.Validated = run.Transitions
 	run.Evals = acc.pairs
@@ -926,6 +927,7 @@ func c07CallHistories(run *report.Run) {
 func C07(run *report.Run) {
 	runVersionPairs(run, "C07", versionConfigs(run.Thorough()), checkNodeDiff)
 	c07CallHistories(run)
+	swallowedFaultPass(run, "C07", "DiffLinks")
 	run.AddSample("every ordered pair of persisted versions of the universe, e.g. old={1=a,2=a,4=a} new={2=b,3=a}: DiffLinks events vs reach sets from the reference walker, then LoadMast(new) from a store holding reach(old)+added")
 	run.Rule = "versions = every assignment of {absent, value...} to the keys of the universe, each built and persisted by the real implementation; all ordered pairs; non-trivial = pairs with different roots; oracle = reach sets computed by the independent store walker + replica load"
 }
